@@ -10,6 +10,7 @@ def main():
         if not m.get("claimed", True):
             continue
         pid = m["id"]
+        assert m.get("level", "proof") in ("exploration", "fault_enumeration", "model_checking", "proof", "translation_validation", "other"), (pid, m.get("level"))
         claimed.add(pid)
         checks.append({
             "property_id": pid,
